@@ -325,34 +325,65 @@ def run(ctx: Ctx) -> None:
     ve = cfgb.methods.get("visit_Expr")
     if ve is None:
         raise AnalysisError("CFGBuilder.visit_Expr vanished")
-    appends = [c for c in calls_in(ve.node) if call_name(c) == "append" and "statements" in ast.unparse(c.func)]
-    ctx.floor("R-C32.4", "appends in visit_Expr", len(appends), 1)
-    known = lambda x: ("tmp" if isinstance(x, ast.Call) and call_name(x) == "is_tmp_var" else None)  # noqa: E731
-    for a in appends:
-        gs = lexical_guards(ve.node, a) or []
-        if not gs:
-            ctx.ok("R-C32.4", f"{ve.qualname}#drops-only-temporaries", ve.where, {"unconditional_append": True})
+    # interpreted: the built value is (a) a compiler temporary `%tmp…`, (b) a user variable, (c) a call; the statement must be kept in
+    # the block it was built in for (b) and (c) -- and may be dropped only for (a)
+    from ..absint.minieval import Unsupported
+    from ..absint.pyeval import PyEval, Raised, Tok
+    sem_bad, sem_und = [], None
+    vps = [a_.arg for a_ in ve.node.args.args]
+    for label, value in (("temporary", Tok("tmp_name", __class__="Name", id="%tmp3")), ("user variable", Tok("user_name", __class__="Name", id="x")),
+                         ("call", Tok("call", __class__="Call")), ("user variable named like a prefix of a temporary", Tok("n2", __class__="Name", id="tmp"))):
+        out_bb = Tok("bb_after_build", statements=[], __ident__=1)
+        node_tok = Tok("expr_stmt", __class__="Expr", value=Tok("unbuilt"), __ident__=1)
+        envx = {vps[0]: Tok("self", cfg=Tok("cfg"), __classes__=cfgb.mro(), __ident__=1), vps[1]: node_tok, vps[2]: Tok("bb_before", statements=[], __ident__=1),
+                "ExprBuilder.build": lambda n_, e_, en_, value=value, out_bb=out_bb: (value, out_bb)}
+        for extra in vps[3:]:
+            envx[extra] = Tok(extra)
+        try:
+            r = PyEval(idx, ve.module.name).run(ve.node.body, envx)
+        except Unsupported as e:
+            sem_und = f"{label}: {e}"
+            break
+        except Raised as e:
+            sem_bad.append({"value": label, "problem": f"raises {e}"})
             continue
-        # statement dropped  <=>  some guard false.  Require: dropped -> is_tmp_var(...)
-        from ..absint.booltab import atoms_of, evaluate
-        from ..guards import generic_atomizer
-        import itertools
-        atomize = generic_atomizer(known)
-        names: list[str] = []
-        for e, _ in gs:
-            for nm in atoms_of(e, atomize):
-                if nm not in names:
-                    names.append(nm)
-        bad = []
-        for vals in itertools.product([False, True], repeat=len(names)):
-            env = dict(zip(names, vals))
-            kept = all(evaluate(e, env, atomize) == pol for e, pol in gs)
-            if not kept and not env.get("tmp", False):
-                bad.append({k.lstrip("?")[:50]: v for k, v in env.items()})
-        ctx.check(not bad, "R-C32.4", f"{ve.qualname}#drops-only-temporaries", f"{ve.module.rel}:{a.lineno}",
-                  {"guards": [(ast.unparse(e)[:80], p) for e, p in gs], "dropped_although_not_a_temporary": bad[:3]},
+        kept = node_tok in out_bb.attrs["statements"]
+        if label != "temporary" and not (kept and r[0] == "return" and r[1] is out_bb):
+            sem_bad.append({"value": label, "statement_kept_in_the_block": kept, "returns_the_block_after_build": r[0] == "return" and r[1] is out_bb})
+    if sem_und is None:
+        ctx.check(not sem_bad, "R-C32.4", f"{ve.qualname}#drops-only-temporaries", ve.where, {"cases": 4, "counterexamples": sem_bad},
                   "an expression statement written by the user is dropped from the block (never checked): `x` alone on a line is accepted "
                   "even if x is undefined or already consumed")
+    else:
+        ctx.note(f"R-C32.4 visit_Expr not interpretable ({sem_und}); guard-table form used")
+        appends = [c for c in calls_in(ve.node) if call_name(c) == "append" and "statements" in ast.unparse(c.func)]
+        ctx.floor("R-C32.4", "appends in visit_Expr", len(appends), 1)
+        known = lambda x: ("tmp" if isinstance(x, ast.Call) and call_name(x) == "is_tmp_var" else None)  # noqa: E731
+        for a in appends:
+            gs = lexical_guards(ve.node, a) or []
+            if not gs:
+                ctx.ok("R-C32.4", f"{ve.qualname}#drops-only-temporaries", ve.where, {"unconditional_append": True})
+                continue
+            # statement dropped  <=>  some guard false.  Require: dropped -> is_tmp_var(...)
+            from ..absint.booltab import atoms_of, evaluate
+            from ..guards import generic_atomizer
+            import itertools
+            atomize = generic_atomizer(known)
+            names: list[str] = []
+            for e, _ in gs:
+                for nm in atoms_of(e, atomize):
+                    if nm not in names:
+                        names.append(nm)
+            bad = []
+            for vals in itertools.product([False, True], repeat=len(names)):
+                env = dict(zip(names, vals))
+                kept = all(evaluate(e, env, atomize) == pol for e, pol in gs)
+                if not kept and not env.get("tmp", False):
+                    bad.append({k.lstrip("?")[:50]: v for k, v in env.items()})
+            ctx.check(not bad, "R-C32.4", f"{ve.qualname}#drops-only-temporaries", f"{ve.module.rel}:{a.lineno}",
+                      {"guards": [(ast.unparse(e)[:80], p) for e, p in gs], "dropped_although_not_a_temporary": bad[:3]},
+                      "an expression statement written by the user is dropped from the block (never checked): `x` alone on a line is accepted "
+                      "even if x is undefined or already consumed")
 
     # ------------------------------------------------------------ R-C32.5 special-form calls read their keywords
     from . import c32_special
